@@ -1,2 +1,36 @@
-(* C03 - messages survive render-then-parse; compression is sound (theorems are added below) *)
+(* C03 - messages survive render-then-parse; compression is sound.
+   Model: Model/MessageM.v.  Proofs: Proofs/Message*.v *)
 From DV Require Import Base.Prelude Model.NameM Model.MessageM.
+From DV Require Import Proofs.MessageBits.
+Open Scope Z_scope.
+
+(* the extended rcode is split between the header (low 4 bits) and the OPT TTL (top 8 bits) *)
+Theorem rcode_split : forall r, 0 <= r < 4096 ->
+  exists v ev, rcode_to_flags r = Ok (v, ev) /\ rcode_from_flags v ev = r
+               /\ Z.land v 65520 = 0 /\ Z.land ev 16777215 = 0.
+Proof. exact rcode_split_lemma. Qed.
+Print Assumptions rcode_split.
+
+(* Message.set_rcode then Message.rcode(), whatever the other header / EDNS flag bits are *)
+Theorem set_rcode_then_rcode : forall m r m', 0 <= r < 4096 -> m_set_rcode m r = Ok m' -> m_rcode m' = r.
+Proof. exact set_rcode_rcode. Qed.
+Print Assumptions set_rcode_then_rcode.
+
+Theorem set_rcode_keeps_other_flags : forall m r m', 0 <= r < 4096 ->
+  m_set_rcode m r = Ok m' -> Z.land (mflags m') 65520 = Z.land (mflags m) 65520.
+Proof. exact set_rcode_keeps_flags. Qed.
+Print Assumptions set_rcode_keeps_other_flags.
+
+Theorem opcode_roundtrip : forall o, 0 <= o < 16 -> opcode_from_flags (opcode_to_flags o) = o.
+Proof. exact opcode_split. Qed.
+Print Assumptions opcode_roundtrip.
+
+Theorem set_opcode_then_opcode : forall m o, 0 <= o < 16 ->
+  m_opcode (m_set_opcode m o) = o /\ Z.land (mflags (m_set_opcode m o)) 34815 = Z.land (mflags m) 34815.
+Proof. intros. split; [apply set_opcode_opcode; assumption|apply set_opcode_keeps_flags]. Qed.
+Print Assumptions set_opcode_then_opcode.
+
+Theorem edns_version_roundtrip : forall v ef, 0 <= v < 256 ->
+  Z.shiftr (Z.land (use_edns_flags v ef) 16711680) 16 = v.
+Proof. exact edns_version_split. Qed.
+Print Assumptions edns_version_roundtrip.
